@@ -226,6 +226,7 @@ static void run(jv *s, int idx)
   jv *ex = j_get(cfg, "extra");
   for (int i = 0; ex && i < ex->n; i++) {
     int fd = (int) ex->a[i]->a[0]->i; char nm[32]; snprintf(nm, sizeof nm, "/%s", ex->a[i]->a[2]->s);
+    if (!strcmp(nm, "/hp")) { int pp[2]; if (pipe(pp) == 0) { close(pp[1]); if (pp[0] != fd) { dup2(pp[0], fd); close(pp[0]); } } if (ex->a[i]->a[1]->i) fcntl(fd, F_SETFD, FD_CLOEXEC); continue; }   /* a hung-up pipe end */
     int f = open(mp(nm), O_RDWR | O_CREAT, 0600); dup2(f, fd); if (f != fd) close(f);
     if (ex->a[i]->a[1]->i) fcntl(fd, F_SETFD, FD_CLOEXEC);
   }
